@@ -903,3 +903,37 @@ Proof. exact merge_err_satisfiable_lemma. Qed.
 
 Example C03_sigma_flip_instance : Z.gcd 3 (2 * Z.of_nat 2) = 1 /\ 1 * 3 = 1 + Z.of_nat 2 + 0 * (2 * Z.of_nat 2).
 Proof. exact sigma_flip_instance_lemma. Qed.
+
+(* ------------------------------------------------------------------------------------------------------------------------ *)
+(* Secret tensor (tensor key of the GGSW family): producer order = accessor order for every rank (Model/GadgetTensor.v) *)
+From PV Require Import Model.GadgetTensor Proofs.GadgetTensor.
+
+Theorem C03_tensor_at_is_prod : forall rank i j : nat, (i <= j)%nat -> tensor_at_idx rank i j = tensor_prod_idx rank i j.
+Proof. exact tensor_at_is_prod. Qed.
+Print Assumptions C03_tensor_at_is_prod.
+
+Theorem C03_tensor_at_sym : forall rank i j : nat, tensor_at_idx rank i j = tensor_at_idx rank j i.
+Proof. exact tensor_at_sym. Qed.
+Print Assumptions C03_tensor_at_sym.
+
+Theorem C03_tensor_prod_idx_lt : forall rank i j : nat, (i <= j)%nat -> (j < rank)%nat -> (tensor_prod_idx rank i j < tensor_pairs rank)%nat.
+Proof. exact tensor_prod_idx_lt. Qed.
+Print Assumptions C03_tensor_prod_idx_lt.
+
+Theorem C03_tensor_prod_idx_inj : forall rank i j i' j' : nat,
+  (i <= j)%nat -> (j < rank)%nat -> (i' <= j')%nat -> (j' < rank)%nat ->
+  tensor_prod_idx rank i j = tensor_prod_idx rank i' j' -> i = i' /\ j = j'.
+Proof. exact tensor_prod_idx_inj. Qed.
+Print Assumptions C03_tensor_prod_idx_inj.
+
+(* the column-major packing j (j+1)/2 + i agrees with it up to rank 2 and swaps (0,2) with (1,1) at rank 3 *)
+Theorem C03_tensor_colmajor_differs_rank3 :
+  (tensor_at_idx_colmajor 0 2 = tensor_prod_idx 3 1 1 /\ tensor_at_idx_colmajor 1 1 = tensor_prod_idx 3 0 2 /\
+   ~ (tensor_at_idx_colmajor 0 2 = tensor_at_idx 3 0 2))%nat.
+Proof. exact tensor_colmajor_differs_rank3. Qed.
+Print Assumptions C03_tensor_colmajor_differs_rank3.
+
+Example C03_tensor_loop_in_order :
+  map (fun p => tensor_prod_idx 3 (fst p) (snd p)) (tensor_loop 3) = [0; 1; 2; 3; 4; 5]%nat /\ tensor_pairs 3 = 6%nat.
+Proof. split; reflexivity. Qed.
+
